@@ -57,10 +57,11 @@ def filter_profile(pid, r):
     if r.random() < 0.3:
         opts["later_regions"] = [("R", "late%d" % i, 28.0 + 10 * i, 28.0, 33.0 + 10 * i, 33.0) for i in range(2)]
         opts["addregion"] = True
-    ops = gen.gen_path(r, regions, opts)
-    if pid in ("C04", "C05", "C01") and r.random() < 0.3:
-        # retracting moves (Slic3r wipe) are outside the matched-cycle dialect of C04/C05 but inside C01's
-        pass
+    if r.random() < 0.45:
+        opts["wipe"] = (pid in ("C09", "C01", "C02")) and r.random() < 0.4
+        ops = gen.gen_episode_path(r, regions, opts)
+    else:
+        ops = gen.gen_path(r, regions, opts)
     evs = gen.encode_path(ops)
     if pid == "C09":
         from . import suites
